@@ -1189,11 +1189,12 @@ func (s *manifestStore) indexReferrersForDelete(ctx context.Context, desc ocispe
 	}
 
 	subject := *manifest.Subject
-	ok, err := s.repo.pingReferrers(ctx)
-	if err != nil {
+	if _, err := s.repo.pingReferrers(ctx); err != nil {
 		return err
 	}
-	if ok {
+	// act on the capability that was recorded, not on the answer to this ping:
+	// a concurrent push may have detected the capability first
+	if s.repo.loadReferrersState() == referrersStateSupported {
 		// referrers API is available, no client-side indexing needed
 		return nil
 	}
